@@ -22,7 +22,8 @@ inductive Site
   | finXattr | finChown | finStat | finChmod | finUtimens | finFsync
   -- Link and Special operations
   | symlink | specialProbeDest | specialStat | specialUnlink | specialMknod
-  -- `exists()` / `is_dir()` probes of the destination in main and in the walker: a failure reads as "absent"
+  -- the test "is the destination an existing directory?" that decides the MAPPING (DEST/name or DEST itself), in main
+  -- and in the walker; after the `fix:` commit (F12) it is fallible (`is_dir_checked`): a failing lookup returns `Err`
   | destProbe
 deriving DecidableEq, Repr
 
@@ -63,7 +64,7 @@ def report : Driver → Site → Report
   | _, .specialStat => ⟨false, true⟩
   | _, .specialUnlink => ⟨false, true⟩
   | _, .specialMknod => ⟨false, true⟩
-  | _, .destProbe => ⟨false, false⟩
+  | _, .destProbe => ⟨false, true⟩
 
 /-- the steps the property lists as needed to produce the destination ("opening or reading a source, creating,
 sizing or writing a file, creating a directory, link or node, renaming a backup, listing a directory, applying
